@@ -2,6 +2,8 @@
   C09 — a retrying collection never waits while holding, and still completes.
 -/
 import HLV.Logic.Order
+import HLV.Logic.SoloAcq
+import HLV.Props.C13
 import HLV.Props.HoldFamily
 namespace HLV
 
@@ -45,5 +47,71 @@ theorem C09_retry_blocks_only_empty_handed (n : Nat) (W : World) (s : Shape)
 theorem C09_retry_contract (n : Nat) (fuel : Nat) (ms : Members) (hm : ms.Ok n none) :
     IsLock n none (retryLock fuel ms.locks) ms.fp :=
   isLock_retry fuel ms hm
+
+/-! ### completion (deterministic reading: the thread alone against a frozen table) -/
+
+theorem calm_of_quiescent (e : Env) (hq : Quiescent e) (fp : Fp) : Calm e fp := fun p _ => (hq p.1).2
+
+-- @theorem C09_retry_completes_once_the_holders_have_released : run alone against a quiescent table (the contending holders have released or hold other locks) in which every leaf of the retrying collection is free for the requested hold, the blocking acquisition of a retrying collection of ANY members (leaves, nested boxed/ref/retry/poisonable, owned groups), any size and arrangement, completes — in its first round — with exactly its leaves taken; two rounds of the loop suffice (fuel ≥ 2)
+theorem C09_retry_completes_once_the_holders_have_released (pol : Policy) (t : Tid) (W : World) (f : Nat)
+    (hf : W.fuel = f + 2) (s : Shape) (m : Mode) (e : Env) (hnd : (declLeaves (.retry s)).Nodup)
+    (hq : Quiescent e) (hfree : (holdsOf (.retry s) m).all (freeFor e) = true) :
+    solo pol t ((toRaw W (.retry s)).acq m) e = .done () (takeAll t (shapeFp W (.retry s) m) e) := by
+  have hn := shapeFp_ids_nodup W (.retry s) m rfl hnd
+  have hw := quiescent_notWaiting t e hq
+  have hall : ∀ p ∈ shapeFp W (.retry s) m, avail pol e p = true := by
+    intro p hp
+    rw [avail_quiescent pol e hq]
+    exact List.all_eq_true.1 hfree p ((shapeFp_perm W m (.retry s) rfl).mem_iff.1 hp)
+  have := (det_retry_acq (pol := pol) (t := t) f (ptrsM (getPtrs W s)) (getPtrs_det W s) (getPtrs_detA W s)
+    m e hw (by simpa [shapeFp] using hn) (calm_of_quiescent e hq _)).1 (by simpa [shapeFp] using hall)
+  rw [ptrsM_locks] at this
+  simpa [toRaw, toRaw?, retryLock, shapeFp, hf] using this
+
+-- @theorem C09_retry_waits_empty_handed_with_the_table_untouched : run alone against a quiescent table in which some leaf is NOT free (held by a frozen other thread), the blocking acquisition of a retrying collection whose members are leaves (any nesting of boxed/ref/retry/poisonable) ends up waiting with every hold, flag and datum of the table exactly as before the call — everything it had taken in the first round has been released before it waits
+theorem C09_retry_waits_empty_handed_with_the_table_untouched (pol : Policy) (t : Tid) (W : World) (f : Nat)
+    (hf : W.fuel = f + 2) (s : Shape) (hno : noOwned s = true) (m : Mode) (e : Env)
+    (hnd : (declLeaves (.retry s)).Nodup) (hq : Quiescent e)
+    (hbusy : (holdsOf (.retry s) m).all (freeFor e) = false) :
+    ∃ e', solo pol t ((toRaw W (.retry s)).acq m) e = .stuck e' ∧ SameHolds e e' := by
+  have hn := shapeFp_ids_nodup W (.retry s) m rfl hnd
+  have hw := quiescent_notWaiting t e hq
+  have hnall : ¬ ∀ p ∈ shapeFp W (.retry s) m, avail pol e p = true := by
+    intro h
+    have : (holdsOf (.retry s) m).all (freeFor e) = true := by
+      rw [List.all_eq_true]
+      intro p hp
+      rw [← avail_quiescent pol e hq]
+      exact h p ((shapeFp_perm W m (.retry s) rfl).mem_iff.2 hp)
+    rw [this] at hbusy; cases hbusy
+  obtain ⟨l, hl, pre, e', h1, h2, _, h4, h5⟩ :=
+    (det_retry_acq (pol := pol) (t := t) f (ptrsM (getPtrs W s)) (getPtrs_det W s) (getPtrs_detA W s)
+      m e hw (by simpa [shapeFp] using hn) (calm_of_quiescent e hq _)).2 (by simpa [shapeFp] using hnall)
+  -- the member is a leaf: its footprint is one hold, so the proper prefix is empty
+  simp only [ptrsM, List.mem_map] at hl
+  obtain ⟨p, hp, rfl⟩ := hl
+  obtain ⟨x, _, hfp⟩ := getPtrs_leaves W s hno p hp
+  obtain ⟨m', hm'⟩ := hfp m
+  have hpre : pre = [] := by
+    simp only [hm', List.length_singleton] at h2
+    exact List.eq_nil_of_length_eq_zero (by omega)
+  subst hpre
+  rw [ptrsM_locks] at h4
+  refine ⟨e', ?_, by simpa using h5⟩
+  simpa [toRaw, toRaw?, retryLock, hf] using h4
+
+/-- non-vacuity: three leaves, the middle one write-held by thread 7; the hypotheses of both
+theorems are met by concrete tables -/
+example :
+    let s : Shape := .seq [.rwlock 1, .boxed (.seq [.rwlock 2, .rwlock 3])]
+    let busy : Env := { locks := fun x => if x = 2 then { writer := some 7 } else {} }
+    let free : Env := {}
+    noOwned s = true ∧ (declLeaves (.retry s)).Nodup ∧ Quiescent busy ∧ Quiescent free ∧
+    (holdsOf (.retry s) .excl).all (freeFor busy) = false ∧
+    (holdsOf (.retry s) .excl).all (freeFor free) = true := by
+  intro s busy free
+  refine ⟨rfl, by decide, ?_, ?_, by decide, by decide⟩
+  · intro x; by_cases hx : x = 2 <;> simp [busy, hx]
+  · intro x; exact ⟨rfl, rfl⟩
 
 end HLV
